@@ -97,10 +97,10 @@ CHECKS = {
             'Within a block only set equality is required. Larger expansions are skipped (counted).',
             'DESIGN.md 3/C10'),
     'C16': ('model_checking',
-            'stateless exploration of every one-preemption schedule of the real code (sys.monitoring line/instruction events + fork), context bound 2',
+            'stateless exploration of the real code under a controlled scheduler (sys.monitoring line/instruction events + fork; B in a real second thread): every one-preemption schedule of every menu pair, and every two-preemption schedule (A | B | A | B) of the short calls within stated occurrence caps',
             'For every pair (A, B) of a call menu, from a cold and a warm library, every line event of A inside the package is taken as a preemption point at which B runs to completion before A resumes '
             '(thorough: all 12x12 pairs and bytecode-instruction granularity for short calls); both values must be bit-identical to the pristine single calls and nothing may raise.',
-            'One preemption only (A|B|A); no memory-model effects of free-threaded builds; calls and arguments limited to the menu (all forced to collide on the same face edge).',
+            'Preemption bound 1 for every pair, bound 2 (A suspended at i, B suspended at j, A completes, B completes) for the short calls only; three or more preemptions and memory-model effects of free-threaded builds are not explored; calls and arguments limited to the menu (all forced to collide on the same face edge).',
             'DESIGN.md 2/E4, 3/C16'),
     'C17': ('model_checking',
             'explicit-state BFS over call histories on the real library (fork per transition, canonical state hashing), pristine single-call values as oracle',
